@@ -765,7 +765,11 @@ class ConfigParser(object):
       'charge' : float,
       'lattice_type' : default}
 
-    converted = known_properties.get(property_name, default)(v)
+    try:
+      converted = known_properties.get(property_name, default)(v)
+    except ValueError:
+      raise ConfigParserException("Error when parsing [Species] section. Could not convert value of '{}' into '{}'. Value is = {}".format(
+        property_name, known_properties[property_name].__name__, v))
     return converted
 
   @property
